@@ -422,6 +422,9 @@ func TargetArith(in *Input, rec *Rec, gz *Base, dir string) {
 	if cl == "skipped" {
 		return
 	}
+	if w[0] == "pt" {
+		rec.Settle()
+	}
 	rec.Line(in.Op, res)
 }
 
